@@ -1,6 +1,443 @@
-From Coq Require Import ZArith List Bool Lia.
+(* Proofs/C20.v — text functions: lemmas and proofs.
+   Gen/text.v (translated bodies) under Model/Text.v's [wrap] (apply_meta). *)
+From Coq Require Import ZArith QArith Qround List Bool Lia.
 From PV Require Import Lib.Py Proofs.PyTac.
 From PV Require Gen.excelutil Gen.text.
 From PV Require Import Model.Text.
 Import ListNotations.
 Open Scope Z_scope.
+
+(* ------------------------------------------------------------ list lemmas *)
+Lemma zlen_nonneg {A} (l : list A) : 0 <= zlen l.
+Proof. unfold zlen. lia. Qed.
+
+Lemma firstn_clamp {A} (s : list A) j : 0 <= j ->
+  firstn (Z.to_nat (Z.max 0 (Z.min (zlen s) j))) s = firstn (Z.to_nat j) s.
+Proof.
+  intros Hj. unfold zlen. destruct (Z_le_gt_dec j (Z.of_nat (length s))) as [H|H].
+  - rewrite Z.min_r, Z.max_r by lia. reflexivity.
+  - rewrite Z.min_l, Z.max_r by lia. rewrite Nat2Z.id.
+    rewrite firstn_all. symmetry. apply firstn_all2. lia.
+Qed.
+
+Lemma skipn_clamp {A} (s : list A) j : 0 <= j ->
+  skipn (Z.to_nat (Z.max 0 (Z.min (zlen s) j))) s = skipn (Z.to_nat j) s.
+Proof.
+  intros Hj. unfold zlen. destruct (Z_le_gt_dec j (Z.of_nat (length s))) as [H|H].
+  - rewrite Z.min_r, Z.max_r by lia. reflexivity.
+  - rewrite Z.min_l, Z.max_r by lia. rewrite Nat2Z.id.
+    rewrite skipn_all. symmetry. apply skipn_all2. lia.
+Qed.
+
+Lemma slice_to {A} (s : list A) n : 0 <= n ->
+  slice_list s None (Some n) = firstn (Z.to_nat n) s.
+Proof.
+  intros Hn. unfold slice_list, clamp_idx.
+  replace (n <? 0) with false by (symmetry; apply Z.ltb_ge; lia).
+  change (Z.to_nat 0) with 0%nat. cbn [skipn]. rewrite Z.sub_0_r.
+  apply firstn_clamp; exact Hn.
+Qed.
+
+Lemma slice_from {A} (s : list A) a : 0 <= a ->
+  slice_list s (Some a) None = skipn (Z.to_nat a) s.
+Proof.
+  intros Ha. unfold slice_list, clamp_idx.
+  replace (a <? 0) with false by (symmetry; apply Z.ltb_ge; lia).
+  rewrite skipn_clamp by exact Ha.
+  apply firstn_all2. rewrite skipn_length.
+  pose proof (zlen_nonneg s). unfold zlen in *. lia.
+Qed.
+
+Lemma slice_mid {A} (s : list A) a k : 0 <= a -> 0 <= k ->
+  slice_list s (Some a) (Some (a + k)) = firstn (Z.to_nat k) (skipn (Z.to_nat a) s).
+Proof.
+  intros Ha Hk. unfold slice_list, clamp_idx.
+  replace (a <? 0) with false by (symmetry; apply Z.ltb_ge; lia).
+  replace (a + k <? 0) with false by (symmetry; apply Z.ltb_ge; lia).
+  rewrite skipn_clamp by exact Ha.
+  unfold zlen. set (n := Z.of_nat (length s)).
+  destruct (Z_le_gt_dec a n) as [H1|H1].
+  - destruct (Z_le_gt_dec (a + k) n) as [H2|H2].
+    + rewrite (Z.min_r n (a + k)), (Z.min_r n a), !Z.max_r by lia.
+      f_equal. lia.
+    + rewrite (Z.min_l n (a + k)), (Z.min_r n a), !Z.max_r by lia.
+      rewrite !firstn_all2; try reflexivity; rewrite skipn_length; subst n; lia.
+  - rewrite (skipn_all2 s) by (subst n; lia). rewrite !firstn_nil. reflexivity.
+Qed.
+
+(* the last k characters *)
+Definition lastn {A} (k : nat) (s : list A) : list A := skipn (length s - k) s.
+
+Lemma slice_last {A} (s : list A) k : 0 < k ->
+  slice_list s (Some (- k)) None = lastn (Z.to_nat k) s.
+Proof.
+  intros Hk. unfold slice_list, clamp_idx, lastn.
+  replace (- k <? 0) with true by (symmetry; apply Z.ltb_lt; lia).
+  unfold zlen. set (n := Z.of_nat (length s)).
+  assert (Hn : 0 <= n) by (subst n; lia).
+  replace (Z.to_nat (Z.max 0 (Z.min n (- k + n)))) with (length s - Z.to_nat k)%nat
+    by (subst n; lia).
+  apply firstn_all2. rewrite skipn_length. subst n. lia.
+Qed.
+
+Lemma lastn_spec {A} (s : list A) k :
+  exists a, s = a ++ lastn k s /\ length (lastn k s) = Nat.min k (length s).
+Proof.
+  unfold lastn. exists (firstn (length s - k) s). split.
+  - symmetry. apply firstn_skipn.
+  - rewrite skipn_length. lia.
+Qed.
+Definition not_code (s : list Z) : Prop := match s with 35 :: _ => False | _ => True end.
+
+Lemma str_eqb_not_code s t : not_code s -> str_eqb s (35 :: t) = false.
+Proof.
+  destruct s as [|c s]; [reflexivity|]. cbn [not_code str_eqb]. intros H.
+  destruct (Z.eqb_spec c 35) as [->|]; [contradiction|reflexivity].
+Qed.
+
+Lemma in_codes_false s : not_code s -> py_in (VStr s) excelutil.c_ERROR_CODES = Ok false.
+Proof.
+  intros H. unfold excelutil.c_ERROR_CODES. cbn [py_in hashable existsb py_eq].
+  rewrite !(str_eqb_not_code s _ H). reflexivity.
+Qed.
+
+Lemma in_codes_int n : py_in (VInt n) excelutil.c_ERROR_CODES = Ok false.
+Proof. reflexivity. Qed.
+
+Lemma coerce_str_text s : excelutil.f_coerce_to_string (VStr s) = Ok (VStr s).
+Proof. reflexivity. Qed.
+
+Lemma coerce_num_int n : excelutil.f_coerce_to_number py_fuel (VInt n) (VBool true) = Ok (VInt n).
+Proof. reflexivity. Qed.
+
+Lemma is_number_int n : excelutil.f_is_number (VInt n) = Ok (VBool true).
+Proof. reflexivity. Qed.
+
+(* evaluation of [wrap] on text / integer arguments *)
+Ltac wrap_step :=
+  cbn [forallb is_scalar andb negb map_idx in_idx existsb Nat.eqb orb bind first_code
+       any_not_number cond_of py_truthy first_err_string];
+  rewrite ?coerce_str_text, ?coerce_num_int, ?in_codes_int, ?is_number_int;
+  rewrite ?in_codes_false by assumption.
+Ltac wrap_run := unfold wrap; repeat (progress wrap_step).
+
+Definition VERR : pyval := excelutil.c_VALUE_ERROR.
+
+(* position p (1-based), k characters: what MID denotes *)
+Definition mid_chars (s : str) (p k : Z) : str :=
+  firstn (Z.to_nat k) (skipn (Z.to_nat (p - 1)) s).
+
+Lemma left_spec s n : not_code s ->
+  X_left [VStr s; VInt n] = Ok (if n <? 0 then VERR else VStr (firstn (Z.to_nat n) s)).
+Proof.
+  intros H. unfold X_left. wrap_run. unfold text.f_left. py_run.
+  destruct (n <? 0) eqn:E; [reflexivity|].
+  cbn [py_str]. py_run. rewrite slice_to by (apply Z.ltb_ge in E; lia). reflexivity.
+Qed.
+
+Lemma left_default s : not_code s -> X_left [VStr s] = X_left [VStr s; VInt 1].
+Proof.
+  intros H. unfold X_left. wrap_run. reflexivity.
+Qed.
+
+Lemma right_spec s k : not_code s ->
+  X_right [VStr s; VInt k] = Ok (if k <? 0 then VERR else VStr (lastn (Z.to_nat k) s)).
+Proof.
+  intros H. unfold X_right. wrap_run. unfold text.f_right. py_run.
+  destruct (k <? 0) eqn:E; [reflexivity|]. apply Z.ltb_ge in E.
+  destruct (k =? 0) eqn:E0.
+  - apply Z.eqb_eq in E0. subst k. change (Z.to_nat 0) with 0%nat.
+    unfold lastn. rewrite Nat.sub_0_r, skipn_all. reflexivity.
+  - apply Z.eqb_neq in E0. cbn [py_str]. py_run.
+    rewrite slice_last by lia. reflexivity.
+Qed.
+
+Lemma mid_spec s n k : not_code s ->
+  X_mid [VStr s; VInt n; VInt k]
+  = Ok (if (n <? 1) || (k <? 0) then VERR else VStr (mid_chars s n k)).
+Proof.
+  intros H. unfold X_mid. wrap_run. unfold text.f_mid. py_run.
+  destruct (n <? 1) eqn:E1; [reflexivity|]. py_run.
+  destruct (k <? 0) eqn:E2; [reflexivity|]. py_run.
+  apply Z.ltb_ge in E1. apply Z.ltb_ge in E2.
+  cbn [py_str]. py_run. rewrite slice_mid by lia. reflexivity.
+Qed.
+
+Lemma len_spec s : not_code s -> X_len [VStr s] = Ok (VInt (zlen s)).
+Proof.
+  intros H. unfold X_len. wrap_run. reflexivity.
+Qed.
+
+Lemma replace_spec s n k t : not_code s -> not_code t ->
+  X_replace [VStr s; VInt n; VInt k; VStr t]
+  = Ok (if (n <? 1) || (k <? 0) then VERR
+        else VStr (firstn (Z.to_nat (n - 1)) s ++ t ++ skipn (Z.to_nat (n - 1 + k)) s)).
+Proof.
+  intros H Ht. unfold X_replace. wrap_run. unfold text.f_replace. py_run.
+  replace (n - 1 <? 0) with (n <? 1)
+    by (destruct (Z.ltb_spec n 1), (Z.ltb_spec (n - 1) 0); try reflexivity; lia).
+  destruct (n <? 1) eqn:E1; [reflexivity|]. py_run.
+  destruct (k <? 0) eqn:E2; [reflexivity|]. py_run.
+  apply Z.ltb_ge in E1. apply Z.ltb_ge in E2.
+  rewrite slice_to by lia. rewrite slice_from by lia.
+  cbn [py_fstr py_str bind]. rewrite app_nil_r. reflexivity.
+Qed.
+
+(* ------------------------------------------------ slicing: the identities *)
+Lemma partition s n : not_code s -> 0 <= n ->
+  exists a b, X_left [VStr s; VInt n] = Ok (VStr a)
+           /\ (exists l, X_len [VStr s] = Ok (VInt l)
+                         /\ X_mid [VStr s; VInt (n + 1); VInt l] = Ok (VStr b))
+           /\ a ++ b = s.
+Proof.
+  intros H Hn. exists (firstn (Z.to_nat n) s), (skipn (Z.to_nat n) s). split; [|split].
+  - rewrite left_spec by assumption.
+    replace (n <? 0) with false by (symmetry; apply Z.ltb_ge; lia). reflexivity.
+  - exists (zlen s). split; [apply len_spec; assumption|].
+    rewrite mid_spec by assumption.
+    replace (n + 1 <? 1) with false by (symmetry; apply Z.ltb_ge; lia).
+    replace (zlen s <? 0) with false by (symmetry; apply Z.ltb_ge; apply zlen_nonneg).
+    cbn [orb]. unfold mid_chars. replace (n + 1 - 1) with n by lia.
+    rewrite firstn_all2; [reflexivity|].
+    rewrite skipn_length. unfold zlen. lia.
+  - apply firstn_skipn.
+Qed.
+
+Lemma right_last s k : not_code s -> 0 <= k ->
+  exists a r, X_right [VStr s; VInt k] = Ok (VStr r)
+           /\ s = a ++ r /\ zlen r = Z.min k (zlen s).
+Proof.
+  intros H Hk. destruct (lastn_spec s (Z.to_nat k)) as (a & Ha & Hl).
+  exists a, (lastn (Z.to_nat k) s). split; [|split].
+  - rewrite right_spec by assumption.
+    replace (k <? 0) with false by (symmetry; apply Z.ltb_ge; lia). reflexivity.
+  - exact Ha.
+  - unfold zlen. rewrite Hl. lia.
+Qed.
+
+Lemma replace_splice s n k t : not_code s -> not_code t -> 1 <= n -> 0 <= k ->
+  exists a b l, X_left [VStr s; VInt (n - 1)] = Ok (VStr a)
+           /\ X_len [VStr s] = Ok (VInt l)
+           /\ X_mid [VStr s; VInt (n + k); VInt l] = Ok (VStr b)
+           /\ X_replace [VStr s; VInt n; VInt k; VStr t] = Ok (VStr (a ++ t ++ b)).
+Proof.
+  intros H Ht Hn Hk.
+  exists (firstn (Z.to_nat (n - 1)) s), (skipn (Z.to_nat (n - 1 + k)) s), (zlen s).
+  split; [|split; [|split]].
+  - rewrite left_spec by assumption.
+    replace (n - 1 <? 0) with false by (symmetry; apply Z.ltb_ge; lia). reflexivity.
+  - apply len_spec; assumption.
+  - rewrite mid_spec by assumption.
+    replace (n + k <? 1) with false by (symmetry; apply Z.ltb_ge; lia).
+    replace (zlen s <? 0) with false by (symmetry; apply Z.ltb_ge; apply zlen_nonneg).
+    cbn [orb]. unfold mid_chars. replace (n + k - 1) with (n - 1 + k) by lia.
+    rewrite firstn_all2; [reflexivity|].
+    rewrite skipn_length. unfold zlen. lia.
+  - rewrite replace_spec by assumption.
+    replace (n <? 1) with false by (symmetry; apply Z.ltb_ge; lia).
+    replace (k <? 0) with false by (symmetry; apply Z.ltb_ge; lia).
+    reflexivity.
+Qed.
+
+Lemma negative_counts s t n k : not_code s -> not_code t ->
+  (n < 0 -> X_left [VStr s; VInt n] = Ok VERR /\ X_right [VStr s; VInt n] = Ok VERR)
+  /\ (n < 1 \/ k < 0 -> X_mid [VStr s; VInt n; VInt k] = Ok VERR
+                        /\ X_replace [VStr s; VInt n; VInt k; VStr t] = Ok VERR).
+Proof.
+  intros H Ht. split.
+  - intros Hn. rewrite left_spec, right_spec by assumption.
+    replace (n <? 0) with true by (symmetry; apply Z.ltb_lt; lia). split; reflexivity.
+  - intros Hnk. rewrite mid_spec, replace_spec by assumption.
+    assert (E : (n <? 1) || (k <? 0) = true).
+    { destruct Hnk as [Hn|Hk'].
+      - replace (n <? 1) with true by (symmetry; apply Z.ltb_lt; lia). reflexivity.
+      - replace (k <? 0) with true by (symmetry; apply Z.ltb_lt; lia). apply orb_true_r. }
+    rewrite E. split; reflexivity.
+Qed.
+
+(* numbers are seen as their Excel rendering: the integer z, given as an int
+   or as the float z.0, is the text of its decimal digits; logicals are
+   TRUE/FALSE; blank is the empty text.  Holds for every function whose first
+   parameter is a str_param, whatever the remaining arguments. *)
+Lemma q_trunc_Z z : q_trunc (inject_Z z) = z.
+Proof.
+  unfold q_trunc. destruct (q_ltb (inject_Z z) 0).
+  - apply Qceiling_Z.
+  - apply Qfloor_Z.
+Qed.
+
+Lemma coerce_str_int z : excelutil.f_coerce_to_string (VInt z) = Ok (VStr (str_of_Z z)).
+Proof. reflexivity. Qed.
+
+Lemma coerce_str_float z :
+  excelutil.f_coerce_to_string (VFloat (inject_Z z)) = Ok (VStr (str_of_Z z)).
+Proof.
+  unfold excelutil.f_coerce_to_string. py_run.
+  change py_fuel with (S 63). cbn [excelutil.f_coerce_to_number]. py_run.
+  replace (excelutil.f_is_number (VFloat (inject_Z z))) with (Ok (VBool true)) by reflexivity.
+  py_run. cbn [py_float bind]. unfold py_eq. cbn [as_num num_q].
+  rewrite q_trunc_Z. unfold q_eqb. rewrite Qeq_bool_refl. py_run.
+  cbn [py_str]. reflexivity.
+Qed.
+
+Lemma wrap_first_arg S N f v t rest :
+  in_idx 0 S = true -> is_scalar v = true ->
+  excelutil.f_coerce_to_string v = Ok (VStr t) ->
+  wrap S N f (v :: rest) = wrap S N f (VStr t :: rest).
+Proof.
+  intros HS Hv Hc. unfold wrap. cbn [forallb is_scalar map_idx]. rewrite Hv, HS, Hc.
+  rewrite coerce_str_text. reflexivity.
+Qed.
+
+Definition slicing (X : list pyval -> res pyval) : Prop :=
+  X = X_left \/ X = X_right \/ X = X_mid \/ X = X_replace.
+
+Lemma number_rendering X z rest : slicing X ->
+  X (VInt z :: rest) = X (VStr (str_of_Z z) :: rest)
+  /\ X (VFloat (inject_Z z) :: rest) = X (VStr (str_of_Z z) :: rest)
+  /\ X (VBool true :: rest) = X (VStr [84; 82; 85; 69] :: rest)
+  /\ X (VBool false :: rest) = X (VStr [70; 65; 76; 83; 69] :: rest)
+  /\ X (VNone :: rest) = X (VStr [] :: rest).
+Proof.
+  intros [-> | [-> | [-> | ->]]]; unfold X_left, X_right, X_mid, X_replace;
+    (split; [|split; [|split; [|split]]]); apply wrap_first_arg;
+    try reflexivity; try apply coerce_str_float.
+Qed.
+
+(* ------------------------------------------------------------------- FIND *)
+Lemma str_prefix_iff p s : str_prefix p s = true <-> firstn (length p) s = p.
+Proof.
+  revert s. induction p as [|x p IH]; intros s.
+  - cbn. split; reflexivity.
+  - destruct s as [|y s]; cbn [str_prefix length firstn].
+    + split; discriminate.
+    + rewrite andb_true_iff, Z.eqb_eq, IH. split.
+      * intros [-> ->]. reflexivity.
+      * intros E. injection E as -> E. split; [reflexivity|exact E].
+Qed.
+
+Lemma str_prefix_false_iff p s : str_prefix p s = false <-> firstn (length p) s <> p.
+Proof.
+  rewrite <- str_prefix_iff. destruct (str_prefix p s); split; congruence.
+Qed.
+
+Lemma str_prefix_length p s : str_prefix p s = true -> (length p <= length s)%nat.
+Proof.
+  rewrite str_prefix_iff. intros E. rewrite <- E at 1. rewrite firstn_length. lia.
+Qed.
+
+Lemma skipn_skipn' {A} (x y : nat) (l : list A) : skipn x (skipn y l) = skipn (x + y) l.
+Proof.
+  revert l. induction y as [|y IH]; intros l.
+  - rewrite Nat.add_0_r. reflexivity.
+  - rewrite Nat.add_succ_r. destruct l as [|a l]; [rewrite !skipn_nil; reflexivity|].
+    cbn [skipn]. apply IH.
+Qed.
+
+Lemma find_from_some p s i j : find_from p s i = Some j ->
+  i <= j /\ (Z.to_nat (j - i) + length p <= length s)%nat
+  /\ str_prefix p (skipn (Z.to_nat (j - i)) s) = true
+  /\ forall q, i <= q < j -> str_prefix p (skipn (Z.to_nat (q - i)) s) = false.
+Proof.
+  revert i. induction s as [|c s IH]; intros i; cbn [find_from].
+  - destruct (str_prefix p []) eqn:E; [|discriminate].
+    intros [= <-]. rewrite Z.sub_diag. cbn [Z.to_nat skipn].
+    split; [lia|]. split; [apply str_prefix_length in E; cbn in *; lia|].
+    split; [exact E|]. intros q Hq. lia.
+  - destruct (str_prefix p (c :: s)) eqn:E.
+    + intros [= <-]. rewrite Z.sub_diag. cbn [Z.to_nat skipn].
+      split; [lia|]. split; [apply str_prefix_length in E; cbn in *; lia|].
+      split; [exact E|]. intros q Hq. lia.
+    + intros Hf. apply IH in Hf. destruct Hf as (Hij & Hlen & Hp & Hmin).
+      replace (Z.to_nat (j - i)) with (S (Z.to_nat (j - (i + 1)))) by lia.
+      cbn [skipn length]. split; [lia|]. split; [lia|]. split; [exact Hp|].
+      intros q Hq. destruct (Z.eq_dec q i) as [->|Hne].
+      * rewrite Z.sub_diag. exact E.
+      * replace (Z.to_nat (q - i)) with (S (Z.to_nat (q - (i + 1)))) by lia.
+        cbn [skipn]. apply Hmin. lia.
+Qed.
+
+Lemma find_from_none p s i : find_from p s i = None ->
+  forall q, (q <= length s)%nat -> str_prefix p (skipn q s) = false.
+Proof.
+  revert i. induction s as [|c s IH]; intros i; cbn [find_from].
+  - destruct (str_prefix p []) eqn:E; [discriminate|]. intros _ q Hq.
+    destruct q; cbn [skipn]; exact E.
+  - destruct (str_prefix p (c :: s)) eqn:E; [discriminate|]. intros Hf q Hq.
+    destruct q as [|q]; [exact E|]. cbn [skipn]. apply (IH _ Hf). cbn in Hq. lia.
+Qed.
+
+(* MID(w, q, LEN f) = f, as a statement about characters *)
+Definition occurs_at (f w : str) (q : Z) : Prop := mid_chars w q (zlen f) = f.
+
+Lemma occurs_at_prefix f w q : 1 <= q ->
+  occurs_at f w q <-> str_prefix f (skipn (Z.to_nat (q - 1)) w) = true.
+Proof.
+  intros Hq. unfold occurs_at, mid_chars, zlen. rewrite Nat2Z.id.
+  symmetry. apply str_prefix_iff.
+Qed.
+
+Lemma find_idx_spec w f st : 0 <= st ->
+  let r := str_find_idx w f st in
+  (r = -1 /\ forall q, st <= q -> q + zlen f <= zlen w ->
+                  str_prefix f (skipn (Z.to_nat q) w) = false)
+  \/ (st <= r /\ r + zlen f <= zlen w
+      /\ str_prefix f (skipn (Z.to_nat r) w) = true
+      /\ forall q, st <= q < r -> str_prefix f (skipn (Z.to_nat q) w) = false).
+Proof.
+  intros Hst. unfold str_find_idx.
+  replace (st <? 0) with false by (symmetry; apply Z.ltb_ge; lia).
+  destruct (zlen w <? st) eqn:E.
+  - apply Z.ltb_lt in E. left. split; [reflexivity|]. intros q H1 H2.
+    pose proof (zlen_nonneg f). lia.
+  - apply Z.ltb_ge in E.
+    destruct (find_from f (skipn (Z.to_nat st) w) st) as [j|] eqn:Ef.
+    + right. apply find_from_some in Ef. destruct Ef as (H1 & H2 & H3 & H4).
+      rewrite skipn_length in H2. rewrite skipn_skipn' in H3.
+      replace (Z.to_nat (j - st) + Z.to_nat st)%nat with (Z.to_nat j) in H3 by lia.
+      split; [exact H1|]. split; [unfold zlen in *; lia|]. split; [exact H3|].
+      intros q Hq. specialize (H4 q Hq). rewrite skipn_skipn' in H4.
+      replace (Z.to_nat (q - st) + Z.to_nat st)%nat with (Z.to_nat q) in H4 by lia.
+      exact H4.
+    + left. split; [reflexivity|]. intros q H1 H2.
+      pose proof (find_from_none _ _ _ Ef (Z.to_nat (q - st))) as H.
+      rewrite skipn_length, skipn_skipn' in H.
+      replace (Z.to_nat (q - st) + Z.to_nat st)%nat with (Z.to_nat q) in H by lia.
+      apply H. pose proof (zlen_nonneg f). unfold zlen in *. lia.
+Qed.
+
+Lemma find_eval f w st : not_code f -> not_code w ->
+  X_find [VStr f; VStr w; VInt st]
+  = Ok (let r := str_find_idx w f (st - 1) in if r =? -1 then VERR else VInt (r + 1)).
+Proof.
+  intros Hf Hw. unfold X_find. wrap_run. unfold text.f_find. py_run.
+  cbn [str_find2 as_index bind]. py_run.
+  destruct (str_find_idx w f (st - 1) =? -1); reflexivity.
+Qed.
+
+Lemma find_default f w : not_code f -> not_code w ->
+  X_find [VStr f; VStr w] = X_find [VStr f; VStr w; VInt 1].
+Proof. intros Hf Hw. unfold X_find. wrap_run. reflexivity. Qed.
+
+(* FIND(f, w, start) for start >= 1: the least position p >= start at which f
+   occurs in w, else #VALUE! *)
+Lemma find_first f w st : not_code f -> not_code w -> 1 <= st ->
+  (X_find [VStr f; VStr w; VInt st] = Ok VERR
+   /\ forall q, st <= q -> q - 1 + zlen f <= zlen w -> ~ occurs_at f w q)
+  \/ (exists p, X_find [VStr f; VStr w; VInt st] = Ok (VInt p)
+      /\ st <= p /\ p - 1 + zlen f <= zlen w /\ occurs_at f w p
+      /\ forall q, st <= q < p -> ~ occurs_at f w q).
+Proof.
+  intros Hf Hw Hst. rewrite find_eval by assumption.
+  destruct (find_idx_spec w f (st - 1)) as [(Hr & Hno) | (H1 & H2 & H3 & H4)]; [lia| |].
+  - left. cbv zeta. rewrite Hr. split; [reflexivity|].
+    intros q Hq Hlen. rewrite occurs_at_prefix by lia.
+    rewrite (Hno (q - 1)) by lia. discriminate.
+  - right. exists (str_find_idx w f (st - 1) + 1). cbv zeta.
+    replace (str_find_idx w f (st - 1) =? -1) with false by (symmetry; apply Z.eqb_neq; lia).
+    split; [reflexivity|]. split; [lia|]. split; [lia|]. split.
+    + rewrite occurs_at_prefix by lia.
+      replace (str_find_idx w f (st - 1) + 1 - 1) with (str_find_idx w f (st - 1)) by lia.
+      exact H3.
+    + intros q Hq. rewrite occurs_at_prefix by lia. rewrite (H4 (q - 1)) by lia. discriminate.
+Qed.
